@@ -442,6 +442,12 @@ func isOddName(n string) bool {
 func classify(c Case) (bool, []string) {
 	var cls []string
 	add := func(s string) { cls = append(cls, s) }
+	if c.After != "" {
+		add("after-failure:" + c.After)
+		if c.has("interp", "") {
+			add("after-failure:" + c.After + "+interpolated-attribute")
+		}
+	}
 	{
 		coll := func(where string, v vals.V) {
 			switch v.K {
@@ -1122,6 +1128,10 @@ func enumerate(rec *ev.Rec, f *findings, shard, shards int) (int, bool) {
 			}
 			return
 		}
+		// the after-failure dimension on a rotating fraction of the cases
+		if every := run.Pick(5, 3); n%every == 0 {
+			c.After = []string{"pool", "tpl"}[(n/every)%2]
+		}
 		nt, cls := classify(c)
 		if !run.Each(rec, "enum", c, nt, cls, check) {
 			ok = false
@@ -1799,6 +1809,12 @@ func genCase(f *findings, table []vals.V) func(t *rapid.T) Case {
 			}
 		}
 		c.Attrs = rapid.Permutation(attrs).Draw(t, "order")
+		switch rapid.IntRange(0, 9).Draw(t, "after") {
+		case 8:
+			c.After = "pool"
+		case 9:
+			c.After = "tpl"
+		}
 		return f.repair(c)
 	}
 }
